@@ -8,7 +8,7 @@ VERIF = os.path.dirname(os.path.dirname(os.path.abspath(__file__)))
 VERUS_UNITS = {
     "decoder": {
         "path": "units/verus/decoder.vx",
-        "props": ["C02", "C04", "C20"],
+        "props": ["C01", "C02", "C04", "C05", "C11", "C20"],
         "configs": {"quick": [("std", ["std", "alloc", "half"])],
                     "thorough": [("std", ["std", "alloc", "half"]), ("alloc", ["alloc", "half"]), ("none", ["half"])]},
         # only C20 needs every configuration; other properties use the first one
@@ -18,6 +18,16 @@ VERUS_UNITS = {
         "props": ["C03", "C13", "C01", "C07", "C20"],
         "configs": {"quick": [("std", ["std", "alloc", "half"])],
                     "thorough": [("std", ["std", "alloc", "half"])]},
+    },
+    "io": {
+        "path": "units/verus/io.vx",
+        "props": ["C14"],
+        "configs": {"quick": [("std", ["std", "alloc", "half"])], "thorough": [("std", ["std", "alloc", "half"])]},
+    },
+    "iosink": {
+        "path": "units/verus/iosink.vx",
+        "props": ["C13"],
+        "configs": {"quick": [("std", ["std", "alloc", "half"])], "thorough": [("std", ["std", "alloc", "half"])]},
     },
 }
 
